@@ -1,12 +1,5 @@
 package main
 
-type ConcCase struct{}
-
-func (*ConcCase) size() int { return 0 }
-
-type CloneCase struct{}
-
-func (*CloneCase) size() int { return 0 }
 
 type DictCase struct{}
 
